@@ -51,6 +51,13 @@ def gen(rng, n, tier):
                     import numpy as np
                     c = Fr(float(np.float32(float(c)))) if kind == "np.float32" else Fr(float(c))
                 if rng.random() < 0.08 or (zero_neg and len(ops) == 0): c = -c
+                # numpy integers of the histogram's own narrow type keep it narrow: chains whose squared errors would leave that type
+                # wrap around inside numpy (outside the property) - such a factor is given as a python int instead, which widens
+                if dtype in ("int16", "int32") and kind in ("np.int16", "np.int32"):
+                    grown = max([abs(x) for x in sx.rec(h)["err2"]] + [abs(x) for x in sx.rec(h)["freq"]] + [abs(x) for x in sx.rec(h)["missed"] if x != "nan"] + [1])
+                    for o_ in ops:
+                        if o_[0] == "mul": grown *= abs(o_[1]) ** 2
+                    if grown * abs(c) ** 2 >= 2 ** 14: kind = "pyint"
                 if rng.random() < 0.6:
                     form = rng.choice(["copy", "copy", "rev", "inplace"])
                     if form == "rev" and kind.startswith("np.") and rng.random() < 0.85: form = "copy"
